@@ -225,15 +225,22 @@ func (lv *LeafVariants) GetHighestPrecedence(onlyNewOrUpdated bool, includeDefau
 		}
 	}
 
+	// if it does not matter if the highes update is also New or Updated return it.
+	// An entry that is marked for deletion will be gone though, so the best remaining entry is what counts.
+	if !onlyNewOrUpdated {
+		if checkExistsAndDeleteFlagSet(highest) && secondHighest != nil {
+			highest = secondHighest
+		}
+		// do not include defaults loaded at validation time
+		if checkNotDefaultAllowedButIsDefaultOwner(highest, includeDefaults) {
+			return nil
+		}
+		return highest
+	}
+
 	// do not include defaults loaded at validation time
 	if checkNotDefaultAllowedButIsDefaultOwner(highest, includeDefaults) {
 		return nil
-	}
-
-	// if it does not matter if the highes update is also
-	// New or Updated return it
-	if !onlyNewOrUpdated {
-		return highest
 	}
 
 	// if the highes is not marked for deletion and new or updated (=PrioChanged) return it
